@@ -69,7 +69,7 @@ def time_correlation(
                     counts[nn] += 1
             results /= counts
         else:
-            results = (np.conj(condition[0][np.newaxis, :]) * condition).sum(axis=1).real
+            results = (np.conj(condition[0][np.newaxis, :]) * condition).sum(axis=1).real.astype(np.float64)
     elif len(condition.shape) == 3:
         # input condition is float or complex-number vector
         if cal_type == "linear":
